@@ -7,6 +7,14 @@ CHECKS = {
    technique="explicit-state BFS over the real handlers (any-host call orders) plus bounded exhaustive enumeration of frame/timestamp/TLV boundary lattices and of filter measurement sequences, in both build flavours; oracle: every call returns",
    text="(a) Full products of per-message-type boundary lattices (buffer length x messageLength, correctionField, wire and receive/transmit timestamps, sender, stepsRemoved, sequence id, TLV suffixes around every margin) are delivered to real ports in 14 seeded states (listening, master, passive, slave E2E/P2P, faulty, boundary clock, path trace, slave-only, master-only, AML) and followed by a fixed suffix of timer/BMCA calls; (b) all host-call sequences over the node alphabet to a depth bound are explored by BFS on canonical states with the real Kalman filter; (c) all measurement sequences of the C13 alphabet drive both filters. Everything runs in a debug-checks build and, as a child process, in a plain release build. The claim is exhaustive for the stated lattices/depths only.",
    note="Environment models (host, coherent recording clock, TLV providers honouring the documented contract with < and <=) are harness code; panics are attributed by call site (location + first statime frame)."),
+ "C05": dict(level="exploration", engine="E3", design="DESIGN.md 4/C05",
+   technique="bounded exhaustive enumeration of data-set/port/prior-state combinations through the real PtpInstance::bmca, differential against an independent IEEE 1588 BMCA reference, plus metamorphic order permutations",
+   text="Own data set (32 pool combinations + clockClass 6/127/128/248/255) x one to three foreign masters drawn from a two-values-per-comparison-level pool (64/16/8 members) x stepsRemoved {0,1,2,3,254} x sender identity relation (below/above/is-grandmaster/second port of the same clock) x receiving port x prior state (fresh, master by timeout, previous round, faulty, slave-silence-timeout) x master-only/slave-only x run-time quality change; Announces are registered through the real ports and the instance-level BMCA is run. Port states and parent/current/time-properties/path-trace data sets must equal the reference (figures 33-35, tables 30-33, documented deviations); all port-order and arrival-order permutations must give the same outcome.",
+   note="Trusted: simcore/src/refbmca.rs. Attribute values matter only through their order; absolute values are covered by the pool's two values per level."),
+ "C06": dict(level="model_checking", engine="E1+E2", design="DESIGN.md 4/C06",
+   technique="explicit-state BFS over the real handlers on a sequence-id-translated canonical state, deviation-bounded enumeration of 16-interval arrival patterns, exhaustive sweep of all 65536 starting sequence ids; oracle computed from the arrival history",
+   text="Event-level BFS (fresh/duplicate/stale/stepsRemoved-255 Announces of two masters, an own-clock sender with our data and one passing on a better grandmaster, BMCA, receipt timeout) from sequence ids 0 and 65533 whose level-by-level state counts must agree; interval-level macro BFS; five 16-interval default patterns with all <=2 (quick) / <=3 (thorough) departures; a regularly announcing master from every one of the 65536 starting ids; 8 and 9 concurrent masters. After every BMCA: a parent has >=2 distinct countable Announces in the window, never the own clock identity; a sustained best master is the parent; a master silent for five intervals is not.",
+   note="The exact purge boundary (4 intervals) is not judged: necessity uses 5 intervals, sufficiency 2."),
  "C07": dict(level="model_checking", engine="E1", design="DESIGN.md 4/C07",
    technique="explicit-state BFS over the real handlers; in every explored state every applicable noise frame is judged by one-step unwinding on the complete canonical state",
    text="Every state reachable to a depth bound in seven worlds (E2E/P2P, slave seeds, acceptable-master list, boundary clock) is probed with ~100 noise frames per port (other domain/sdoId/version for every message type, truncated, over-long, odd TLV, own identity, unacceptable master, Sync/Follow_Up/Delay_Resp from non-parents and sibling ports of the parent, responses for other requesters, management/signaling). The frame must produce no action, no clock or filter call, no rng draw and leave the canonical state (all private fields) identical; determinism then gives trace equivalence for all insertion positions along all explored histories.",
